@@ -92,7 +92,8 @@ type OStep struct {
 
 type OScenario struct {
 	Scenario
-	OSteps []OStep `json:"osteps"`
+	OSteps   []OStep `json:"osteps"`
+	LogReads bool    `json:"logReads,omitempty"` // log every read as a Read event (enumeration of call positions)
 }
 
 type ocmd struct {
@@ -398,7 +399,7 @@ func (o *osim) queueRec(st OStep) {
 			n++
 		}
 	}
-	if n == 0 && st.Cmd != "" {
+	if n == 0 {
 		o.skip(st, "not-in-queue")
 	}
 }
@@ -595,6 +596,7 @@ func (o *osim) replStep(st OStep) {
 // quiescent: the environment is fair to pending launches (an un-launched NodeClaim keeps the cluster state unsynced and
 // the disruption controller idle), then queue and stale cleanup run until nothing changes at the current instant.
 func (o *osim) quiescent(st OStep) {
+	o.w.Emit(trace.M{"e": "Note", "what": "quiescent-begin", "kind": "-", "name": "-", "msg": "-"})
 	var claims v1.NodeClaimList
 	o.w.List(&claims)
 	for i := range claims.Items {
@@ -710,6 +712,7 @@ func RunOrchOne(sc *OScenario, tw *trace.Writer) (err error) {
 	}
 	s.nomWin = max(2*bm, 10)
 	o := &osim{sim: s, repl: map[string][]string{}}
+	w.LogReads = sc.LogReads
 	raw, _ := json.Marshal(sc)
 	tags := map[string]any{}
 	if sc.Tags != nil {
